@@ -108,6 +108,16 @@ theorem registry_stop_code_witness :
           = some [some "Default_Char_Expr", some "Int_Expr"] := by
   decide +kernel
 
+/-- **setup_matches_generated**, executable form: the model's `setup (members std)` over the
+    generated class facts equals the generated REAL `Base.subclasses`, both standards.
+    `decide +kernel` of `setup_matches_generated_check = true` needs ≈ 9 minutes, so this is
+    NOT a kernel theorem: it is evaluated by the compiled driver (command `regcheck`) in every
+    run of `fv.cosim_symtree`, which also compares the model registry with the live
+    `Base.subclasses` after random `create` histories. -/
+def setup_matches_generated_check : Bool :=
+  (setup genWorld (members genWorld .f2003) == real2003)
+  && (setup genWorld (members genWorld .f2008) == real2008)
+
 /-- the generated `cid`s are positions, and no class listed with Fortran2003 belongs to the
     Fortran2008 package -/
 theorem generated_cids_wellformed :
